@@ -4,3 +4,4 @@ CONSTANTS
   Quanta <- QuantaS
 INVARIANT PrintShape
 INVARIANT PrintLazy
+INVARIANT PrintCall
